@@ -214,7 +214,7 @@ func rulesC07(c *Ctx) {
 				}
 			}
 		}
-		c.Need(sv != nil, "Server.Connect: a field that receives filterSupportedVersions(t)")
+		c.Must(sv != nil, "Server.Connect:versions-filtered-by-transport", sc, nil, "Server.Connect stores filterSupportedVersions(t) in the session: without it the session advertises and negotiates versions its transport cannot serve")
 		okStore := false
 		for _, w := range Writes(sc.Body, false) {
 			if sc.IsField(w.LHS, sv) && w.RHS != nil {
